@@ -29,6 +29,7 @@ OtherTab == <<
   <<"SQ", <<8, 4416>>>>,       \* (0008,1140) Referenced Image Sequence
   <<"LO", <<16, 32>>>>,        \* (0010,0020) Patient ID
   <<"US", <<40, 16>>>>,        \* (0028,0010) Rows
+  <<"US", <<40, 17>>>>,        \* (0028,0011) Columns
   <<"SQ", <<64, 629>>>>,       \* (0040,0275) Request Attributes Sequence
   <<"SQ", <<136, 512>>>>,      \* (0088,0200) Icon Image Sequence
   <<"OW", <<32736, 16>>>> >>   \* (7FE0,0010) Pixel Data: OW in Implicit VR (PS3.5 A.1)
